@@ -95,22 +95,11 @@ func (writer *SSTableStreamWriter) WriteNext(key []byte, value []byte) error {
 		} else if cmpResult > 0 {
 			return fmt.Errorf("sstables.WriteNext '%s': non-ascending key cannot be written", writer.opts.basePath)
 		}
-
-		// the size of the key may be variable, that's why we might allocate a new buffer for the last key
-		if len(writer.lastKey) != len(key) {
-			writer.lastKey = make([]byte, len(key))
-		}
 	} else {
 		if writer.metaData == nil {
 			return fmt.Errorf("sstables.writeNext '%s': no metadata available to write into, table might not be opened yet", writer.opts.basePath)
 		}
-
-		writer.metaData.MinKey = make([]byte, len(key))
-		writer.lastKey = make([]byte, len(key))
-		copy(writer.metaData.MinKey, key)
 	}
-
-	copy(writer.lastKey, key)
 
 	if writer.opts.enableBloomFilter {
 		fnvHash := fnv.New64()
@@ -136,6 +125,19 @@ func (writer *SSTableStreamWriter) WriteNext(key []byte, value []byte) error {
 		seekErr := writer.dataWriter.Seek(preWriteOffset)
 		return fmt.Errorf("error writeNext index writer/seeker error in '%s': %w", writer.opts.basePath, errors.Join(err, seekErr))
 	}
+
+	// only a record that made it into both files becomes the last key (and the min key of the table), otherwise the
+	// metadata would name keys the table does not contain and reject keys that are still in order
+	if writer.lastKey == nil {
+		writer.metaData.MinKey = make([]byte, len(key))
+		copy(writer.metaData.MinKey, key)
+	}
+
+	// the size of the key may be variable, that's why we might allocate a new buffer for the last key
+	if writer.lastKey == nil || len(writer.lastKey) != len(key) {
+		writer.lastKey = make([]byte, len(key))
+	}
+	copy(writer.lastKey, key)
 
 	writer.metaData.NumRecords += 1
 	if value == nil {
